@@ -85,8 +85,9 @@ Definition parse_nconstraints (bare : bool) (l : list nspec) : option pct :=
       Some (parse_nmany first tl)
   end.
 
-(* asn1constraint_pullup with a parent that is not a CA_SET (the bare spelling):
-   the own constraints are inserted into the parent node whatever its type *)
+(* asn1constraint_pullup: the own constraints are inserted into the parent's
+   combined constraint whatever its node type (always a CA_SET since the own
+   constraint of every link is wrapped, see wrap_set below) *)
 Definition add_children (p : pct) (os : list pct) : option pct :=
   match p with
   | PSet ps => Some (PSet (ps ++ os))
@@ -97,15 +98,20 @@ Definition add_children (p : pct) (os : list pct) : option pct :=
   | _ => None       (* a SIZE node with two elements: compute asserts el_count == 1 *)
   end.
 Inductive pres := POk (ct : option pct) | PAssert.
+(* asn1constraint_pullup: an own constraint that is not a CA_SET (the bare
+   SizeConstraint) is made the single element of a serial set before anything
+   else is done with it ("SEQUENCE SIZE(1..5,...) OF" is treated as
+   "SEQUENCE (SIZE(1..5,...)) OF" is) *)
+Definition wrap_set (o : pct) : pct := match o with PSet _ => o | x => PSet [x] end.
 Definition npullup_step (parent : pres) (own : option pct) : pres :=
   match parent with
   | PAssert => PAssert
-  | POk None => POk (match own with Some o => Some (remove_ext true o) | None => None end)
+  | POk None => POk (match own with Some o => Some (remove_ext true (wrap_set o)) | None => None end)
   | POk (Some p) =>
       match own with
       | None => POk (Some p)
       | Some o =>
-          match add_children (remove_ext false p) (match o with PSet os => os | x => [x] end) with
+          match add_children (remove_ext false p) (match wrap_set o with PSet os => os | x => [x] end) with
           | Some c => POk (Some c)
           | None => PAssert
           end
